@@ -26,6 +26,12 @@ CLAIMED = {
         "Real arithmetic; termination for max_fitting_steps=None is not claimed (the loop is modelled with fuel). The trajectory is observed by wrapping gmm.m_step from the harness.",
         "§6 C03",
     ),
+    "C05": (
+        "Lean 4 theorems about the dual-variant model of map_gmm_m_step (Spec = Reynolds eq. 11-13, Code = pinned commit): blend formulas, normalisation, non-negativity, no-evidence branch, limits r->inf / r->0+ (Filter.Tendsto), exact Code-vs-Spec deviation and its refutation witness; Float model vs implementation correspondence accepting either variant",
+        "Proof: adapted means/weights are the stated relevance blends (weights renormalised to the simplex), Spec variances are the blended second moment minus the squared new mean and are >= 0, components without evidence keep the prior, limits in the relevance factor; the code's variance deviates by exactly (1-a)(mu0^2 - mu0) (known finding D3, refuted in Lean with the witness replayed on the code). Tie: one M-step over all switch combinations, starved components, relevance 1e-6..1e6, fixed ratios incl. 0 and 1; two-iteration fit chained through the model.",
+        "Real arithmetic. The penalised-likelihood monotonicity clause (C05_map_means_monotone in DESIGN.md) is not proved yet: partial. Known finding D3 is reported as KNOWN-FINDING, any other deviation is a VIOLATION.",
+        "§6 C05",
+    ),
 }
 
 NOT_YET = "check not built yet in this round (see DESIGN.md §8 order of work); not claimed"
